@@ -16,7 +16,7 @@ use std::str::FromStr;
 pub static INFO: PropInfo = PropInfo {
     id: "C01",
     run,
-    rule: "inputs: (a) every sequence of <=3 tokens over a 75-token alphabet covering each lexer class (joined with and without spaces; length 4 over a 40-token core in the thorough tier), (b) grammar-generated programs, (c) byte- and token-level mutants of those and of the repository's .quil corpus, (d) a boundary-literal battery in every operand position, (e) nesting/size stress up to depth 5000 (quick) / 20000 (thorough) and ~1 MB. Each input goes to Program/Instruction/Expression/MemoryReference/FrameIdentifier::from_str. distinct = distinct input text; non-trivial = at least one of the five entry points got past the lexer (returned Ok, or a non-lexer error).",
+    rule: "inputs: (a) every sequence of <=3 tokens over a 75-token alphabet covering each lexer class (joined with and without spaces; length 4 over a 40-token core in the thorough tier), (b) grammar-generated programs, (c) byte- and token-level mutants of those and of the repository's .quil corpus, (d) a boundary-literal battery in every operand position, (e) nesting/size stress up to depth 5000 (quick) / 10000 (thorough) and ~1 MB. Each input goes to Program/Instruction/Expression/MemoryReference/FrameIdentifier::from_str. distinct = distinct input text; non-trivial = at least one of the five entry points got past the lexer (returned Ok, or a non-lexer error).",
     assumptions: &[
         "harness built with -C overflow-checks=on so integer overflow panics as in the repository's test profile",
         "process death is attributed to the last case announced before it (case-begin record flushed before execution)",
@@ -272,7 +272,7 @@ fn run(ctx: &mut Ctx) {
         // (error rendering in Instruction::from_str is quadratic in the input size, ~5 s at 20 000
         // levels, so the deepest cases are bounded to keep clear of the watchdog)
         Tier::Quick => &[10, 100, 127, 128, 129, 130, 1_000, 5_000],
-        Tier::Thorough => &[10, 100, 127, 128, 129, 130, 1_000, 5_000, 10_000, 20_000],
+        Tier::Thorough => &[10, 100, 127, 128, 129, 130, 1_000, 5_000, 10_000],
     };
     for kind in 0..NEST_KINDS {
         for &depth in depths {
